@@ -187,7 +187,7 @@ impl<T> Vec<T> {
             for col in Entry::matcher_cols_raw(entry, self.columns) {
                 col.get().write(MaybeUninit::new(Utf32String::default()))
             }
-            fill_columns(&value, Entry::matcher_cols_mut(entry, self.columns));
+            Entry::fill_columns(entry, self.columns, &value, fill_columns);
             (*entry).slot.get().write(MaybeUninit::new(value));
             #[cfg(nucleo_verif)]
             crate::verif::hb::plain_write(entry as usize, "push (after writing the entry)");
@@ -281,7 +281,7 @@ impl<T> Vec<T> {
                 for col in Entry::matcher_cols_raw(entry, self.columns) {
                     col.get().write(MaybeUninit::new(Utf32String::default()));
                 }
-                fill_columns(&v, Entry::matcher_cols_mut(entry, self.columns));
+                Entry::fill_columns(entry, self.columns, &v, &fill_columns);
                 (*entry).slot.get().write(MaybeUninit::new(v));
                 #[cfg(nucleo_verif)]
                 crate::verif::hb::plain_write(entry as usize, "extend (after writing the entry)");
@@ -615,6 +615,34 @@ impl<T> Entry<T> {
         let offset = tail.offset_from(ptr as *mut u8) as usize;
         let ptr = (ptr as *mut u8).add(offset) as *mut _;
         slice::from_raw_parts(ptr, cols as usize)
+    }
+
+    /// Calls `fill_columns` for the initialized matcher columns of this entry. If the callback
+    /// unwinds the entry never becomes active, so nobody else would ever drop what the callback
+    /// had already stored in the columns: drop them here.
+    ///
+    /// # Safety
+    ///
+    /// The matcher columns must be initialized and the caller must have unique access to the entry.
+    unsafe fn fill_columns(
+        ptr: *mut Entry<T>,
+        cols: u32,
+        value: &T,
+        fill_columns: impl FnOnce(&T, &mut [Utf32String]),
+    ) {
+        struct DropColumns<T>(*mut Entry<T>, u32);
+        impl<T> Drop for DropColumns<T> {
+            fn drop(&mut self) {
+                unsafe {
+                    for matcher_col in Entry::matcher_cols_raw(self.0, self.1) {
+                        ptr::drop_in_place((*matcher_col.get()).as_mut_ptr());
+                    }
+                }
+            }
+        }
+        let guard = DropColumns(ptr, cols);
+        fill_columns(value, Entry::matcher_cols_mut(ptr, cols));
+        std::mem::forget(guard);
     }
 
     unsafe fn matcher_cols_mut<'a>(ptr: *mut Entry<T>, cols: u32) -> &'a mut [Utf32String] {
